@@ -98,7 +98,8 @@ def wlsq(B, y, w, free=None, fixed_values=None):
 
     B: (m, n) basis rows, y: (n,), w: (n,) non-negative weights (inverse variances).
     free: boolean (m,), True = fitted.  fixed_values: (m,), used where ~free.
-    Returns dict(coeff, cond, smax, bnorm, rank, A, b) where A = sqrt(w) * B_free^T, b = sqrt(w) * (y - fixed part).
+    Returns dict(coeff, cond, smax, bnorm, rank, A, b) where A = sqrt(w) * B_free^T, b = sqrt(w) * (y - fixed part),
+    bnorm = |sqrt(w) y| + |sqrt(w) fixed part| (error scale of the right-hand side).
     """
     B = np.asarray(B, dtype=np.float64)
     y = np.asarray(y, dtype=np.float64)
@@ -107,9 +108,12 @@ def wlsq(B, y, w, free=None, fixed_values=None):
     free = np.ones(m, dtype=bool) if free is None else np.asarray(free, dtype=bool)
     coeff = np.zeros(m) if fixed_values is None else np.array(fixed_values, dtype=np.float64)
     s = np.sqrt(np.where(w > 0, w, 0.0))
-    ysub = y - coeff[~free] @ B[~free] if (~free).any() else y.copy()
+    yfix = coeff[~free] @ B[~free] if (~free).any() else np.zeros_like(y)
+    ysub = y - yfix
     A = (B[free] * s).T
     b = ysub * s
+    # magnitude of the data entering the right-hand side before the fixed part cancels against it
+    dnorm = float(np.linalg.norm(y * s) + np.linalg.norm(yfix * s))
     if free.any():
         c, _, rank, sv = np.linalg.lstsq(A, b, rcond=None)
         coeff[free] = c
@@ -118,7 +122,7 @@ def wlsq(B, y, w, free=None, fixed_values=None):
         cond = smax / smin if smin > 0 else np.inf
     else:
         rank, smax, cond = 0, 0.0, 1.0
-    return {'coeff': coeff, 'cond': cond, 'smax': smax, 'bnorm': float(np.linalg.norm(b)), 'rank': int(rank),
+    return {'coeff': coeff, 'cond': cond, 'smax': smax, 'bnorm': dnorm, 'rank': int(rank),
             'A': A, 'b': b, 'ysub': ysub, 'free': free}
 
 
